@@ -497,6 +497,48 @@ func scenario(rec *mon.Recorder, c int) bool {
 	}
 	// restart with existing datasets: the replay burst of membership and catalogue entries
 	victim := cl.Nodes[rng.Intn(2)]
+	// the partitions the victim hosts hold items and have compacted their logs into snapshots: on its way up the node
+	// loads each partition's raft group from a stored snapshot (the index is rebuilt from it while the catalogue entry
+	// that made the partition is being applied)
+	if !victim.Dead() && victim.In != nil && c%2 == 0 {
+		var live []*pb.Dataset
+		cl.Guard(8*time.Second, func() { live, _ = victim.DM().List(ctx, false) })
+		snapped := 0
+		for _, d := range live {
+			did := uuid.FromBytesOrNil(d.GetId())
+			ds := victim.Dataset(did)
+			if ds == nil {
+				continue
+			}
+			wrote := 0
+			cl.Guard(8*time.Second, func() {
+				for i := 0; i < 6; i++ {
+					vec := make([]float32, d.GetDimension())
+					for j := range vec {
+						vec[j] = float32(rng.NormFloat64())
+					}
+					if ds.Insert(ctx, uuid.NewV4(), vec, map[string]string{"k": fmt.Sprint(i)}) == nil {
+						wrote++
+					}
+				}
+			})
+			if wrote == 0 {
+				continue
+			}
+			for _, p := range d.GetPartitions() {
+				pid := uuid.FromBytesOrNil(p.GetId())
+				if victim.PartitionRaft(did, pid) != nil && cl.TriggerSnapshot(victim, pid, 0) {
+					snapped++
+				}
+			}
+		}
+		if snapped > 0 {
+			time.Sleep(100 * time.Millisecond)
+			note(fmt.Sprintf("%d partition logs on node %d compacted into snapshots", snapped, victim.Id))
+			rec.Count("restarts_with_stored_partition_snapshots", 1)
+			rec.Count("partition_snapshots_stored_before_a_restart", int64(snapped))
+		}
+	}
 	if !removals && !cl.Nodes[2].Dead() && cl.Nodes[2].In != nil {
 		// node 3 is a member, so the others keep a quorum while the victim is down: the catalogue changes and both
 		// compact their logs. The victim replays its own log first (it knows datasets) and is then sent the leader's
